@@ -82,7 +82,7 @@ var cpElems = []cp{{}, {1, 0}, {1, 1}, {1, 2}, {kind: 2}}
 func runLaws(r *vf.Run) int {
 	n := 0
 	rng := r.Rand("laws", 0)
-	k := r.Pick(20000, 400000)
+	k := r.Pick(100000, 400000)
 	n += lawTriples(r, "cp", cpL{}, cpElems, allTriples(cpElems), func(e cp) string { return fmt.Sprint(e) })
 	// MapLattice: keys 0..3, values never the identity (as documented)
 	genMap := func() map[int]cp {
